@@ -3,6 +3,7 @@ package sim
 // Log-analysis oracles of netsim (evaluated after the settle phase).
 
 import (
+	"verif/simrt"
 	"fmt"
 	"strings"
 	"time"
@@ -18,17 +19,21 @@ import (
 var dtExtNames = []graphsync.ExtensionName{extension.ExtensionIncomingRequest1_1, extension.ExtensionOutgoingBlock1_1, extension.ExtensionDataTransfer1_1}
 
 // dtOf extracts the data-transfer message carried by a list of graphsync extensions (nil if none).
-func dtOf(exts []graphsync.ExtensionData) datatransfer.Message {
-	for _, name := range dtExtNames {
-		for _, e := range exts {
-			if e.Name == name && e.Data != nil {
-				if m, err := message.FromIPLD(e.Data); err == nil {
-					return m
+func dtOf(exts []graphsync.ExtensionData) (out datatransfer.Message) {
+	// observation only: must not consume preemption points (simrt.Quiet)
+	simrt.Quiet(func() {
+		for _, name := range dtExtNames {
+			for _, e := range exts {
+				if e.Name == name && e.Data != nil {
+					if m, err := message.FromIPLD(e.Data); err == nil {
+						out = m
+						return
+					}
 				}
 			}
 		}
-	}
-	return nil
+	})
+	return out
 }
 
 func (nr *netRun) other(n *Node) *Node {
@@ -343,7 +348,8 @@ func (nr *netRun) checkChannelCount() {
 		if len(m) > opened+nr.extraChannelsAllowed {
 			r.Failf("C10", "extra-channel", n.Name, "node %s lists %d channels but only %d transfers were opened", n.Name, len(m), opened)
 		}
-		for id, st := range m {
+		for _, id := range sortedBy(m, chidStr) {
+			st := m[id]
 			TakeSnap(r, "InProgressChannels", st)
 			known := false
 			for _, x := range nr.xs {
